@@ -524,11 +524,13 @@ class ConnModel:
         I.run_to_end(I.call_fn(fn, [("stream-id", target), Ref(Cell(table))], p))
         self.encoded |= I.called
         left = [deref(x.f[0].v)[1] for x in table.items]
-        exp_woken = [ws[target]] if target in ws else []
-        return [("exactly the waker registered for the named stream is woken, once; nothing when nobody waits on it",
-                 z3.BoolVal(len(W.woken) == len(exp_woken) and all(a is b for a, b in zip(W.woken, exp_woken)))),
-                ("the woken waker leaves the table, every other stream's waker stays registered",
-                 z3.BoolVal(left == [k for k in ids if k != target]))]
+        obs = []
+        if target in ws:
+            obs.append(("the waker registered for the named stream is woken", z3.BoolVal(any(x is ws[target] for x in W.woken))))
+        # a spurious wake-up of another stream's future would be harmless; dropping its registration silently would strand it
+        obs.append(("every other stream's waker stays registered or is woken (none is dropped silently)",
+                    z3.BoolVal(all(k in left or any(x is ws[k] for x in W.woken) for k in ids if k != target))))
+        return obs
 
     def _event_slice(self, call=r"quinn_proto::Connection::poll", what="quinn_proto::Connection::poll"):
         c = [f for k, f in self.fns.items() if k.startswith("connection::") and k.endswith("::run::{closure#0}") and "Poll<()>" in f.sig]
@@ -587,10 +589,12 @@ class ConnModel:
         for t in need:
             obs.append(("%s event: the future of that stream parked in `%s` is woken" % (names[k], t),
                         z3.BoolVal(sum(1 for x in W.woken if x is ws[(t, 7)]) == 1)))
-        obs.append(("no other stream's future is woken or unregistered by the event",
-                    z3.BoolVal(not any(x is ws[(t, 9)] for x in W.woken for t in ("readable", "writable", "stopped"))
-                               and all(any(deref(y.f[1].v) is ws[(t, 9)] for y in st.f[self.idx(t)].v.items)
-                                       for t in ("readable", "writable", "stopped")))))
+        # a spurious wake-up of another stream's future is harmless (it polls again and registers again); losing its registration
+        # without waking it is not
+        obs.append(("no other stream's future loses its registration without being woken",
+                    z3.BoolVal(all(any(deref(y.f[1].v) is ws[(t, 9)] for y in st.f[self.idx(t)].v.items)
+                                   or any(x is ws[(t, 9)] for x in W.woken)
+                                   for t in ("readable", "writable", "stopped")))))
         return obs
 
     def check_conn_event(self, p):
